@@ -47,6 +47,8 @@ pub struct SolstatToml {
 
 impl Opts {
     pub fn new() -> Opts {
+        #[cfg(solstat_verif)]
+        use crate::verif_shim::{fs, process, ArgsSeam as Args};
         let args = Args::parse();
 
         let (optimizations, vulnerabilities, qa) = if args.toml.is_some() {
